@@ -428,6 +428,7 @@ def run(repo: Repo, rep: Report, tier: str) -> None:
         rep.defer(f"service_class.attempt.__exit__ could not be evaluated ({exc_})")
     # ---- absent is None, not falsy ---------------------------------------------------------
     from ..lints import zero_legal_truthiness
+    check_validity_getters(repo, rep, "request-served")
     rep.rule("none-not-falsy", "Message IDs and Status are tested with `is None`: Message ID 0 and Status 0x0000 are legal")
     zero_legal_truthiness(repo, rep, "none-not-falsy", {"MessageID", "MessageIDBeingRespondedTo", "Status"})
 
@@ -508,3 +509,56 @@ def check_peer_status_lookup(repo, rep, rule: str = "peer-status-guarded") -> in
             n += 1
             rep.ok(rule, f"service_class.{qualname(x)} :: {norm(x)[:60]}", ".get() with a default")
     return n
+
+
+def check_validity_getters(repo, rep, rule: str) -> None:
+    """_serve_request() drops - without a response and without an abort - every request whose primitive says it is
+    not a valid request. The getter is evaluated (sa/minipy.py) for each primitive class with every required
+    parameter set to a legal *falsy* value (Message ID 0, Priority 0 = MEDIUM, an empty identifier stream ...) and
+    with each one missing in turn: valid exactly when none is None."""
+    from ..minipy import Interp, Obj, Raised, Unsupported
+
+    rep.rule(rule, "is_valid_request / is_valid_response are true exactly when no required parameter is None - a legal falsy value (Message ID 0, Priority 0) is present")
+    dp = repo.mod("dimse_primitives")
+    base = dp.classes.get("DIMSEPrimitive")
+    if base is None:
+        rep.defer("dimse_primitives.DIMSEPrimitive vanished")
+        return
+    n = 0
+    for getter, kwattr in (("is_valid_request", "REQUEST_KEYWORDS"), ("is_valid_response", "RESPONSE_KEYWORDS")):
+        for cname, ci in sorted(dp.classes.items()):
+            _, fn = repo.lookup_method(ci, getter, "getter")
+            if fn is None:
+                continue
+            kws = None
+            for c_ in repo.mro(ci):
+                for a in c_.node.body:
+                    if isinstance(a, (ast.Assign, ast.AnnAssign)) and norm(a.targets[0] if isinstance(a, ast.Assign) else a.target) == kwattr and isinstance(a.value, (ast.Tuple, ast.List)):
+                        kws = [e.value for e in a.value.elts if isinstance(e, ast.Constant)]
+                        break
+                if kws is not None:
+                    break
+            if not kws:
+                continue
+            for missing in [None] + kws:
+                attrs = {k: (0 if ("ID" in k or k in ("Priority", "Status")) else "") for k in kws}
+                if missing is not None:
+                    attrs[missing] = None
+                attrs[kwattr] = tuple(kws)
+                me = Obj(cname, attrs)
+                try:
+                    r = Interp({}).call_function(fn, {"self": me})
+                except Unsupported as exc:
+                    rep.defer(f"dimse_primitives.{cname}.{getter}: not evaluable ({exc})")
+                    break
+                except Raised as r_:
+                    rep.fail(rule, f"dimse_primitives.{cname}.{getter}", f"raises {r_.kind}", "the validity getter raises", mod=dp, node=fn)
+                    break
+                n += 1
+                want = missing is None
+                if bool(r) != want:
+                    rep.fail(rule, f"dimse_primitives.{cname}.{getter}", f"{'all required parameters present, the numeric ones 0 and the others empty' if missing is None else missing + ' is None'} -> {r!r}", f"{getter} must be {want}: " + ("a request whose Message ID or Priority is 0 (both legal) is otherwise dropped by _serve_request() without any response" if want else "a primitive lacking a required parameter passes as valid"), mod=dp, node=fn)
+                    break
+    if n:
+        rep.ok(rule, f"dimse_primitives :: {n} evaluations of the validity getters", "valid iff no required parameter is None")
+    rep.floor("validity getter evaluations", n, 40)
